@@ -122,6 +122,9 @@ def _cases(tier, seed):
             out.append({"kind": "rldecode", "n": list(cnt), "rows": 1})
             if (sum(cnt) + L) % 3 == 0:
                 out.append({"kind": "rldecode", "n": list(cnt), "rows": 2})
+            if (sum(cnt) + L) % 4 == 0:
+                # more values than counts (extract_subgrid calls it that way): the surplus is ignored
+                out.append({"kind": "rldecode", "n": list(cnt), "rows": 1, "extra": 2})
     for rows in (1, 2):
         for cols in (1, 2, 3, 4) if big else (1, 2, 3):
             out.append({"kind": "rlencode", "rows": rows, "cols": cols})
@@ -296,10 +299,10 @@ def harness(ctx, c):
     elif kind == "rldecode":
         n = np.array(c["n"], dtype=int)
         L = len(n)
-        A = ctx.reals("a", L) if c["rows"] == 1 else ctx.reals("a", (L, 2))
+        A = ctx.reals("a", L + c.get("extra", 0)) if c["rows"] == 1 else ctx.reals("a", (L, 2))
         inputs["A"] = A
         B = mo.rldecode(A, n)
-        exp = np.repeat(np.asarray(A, dtype=object), n, axis=0)
+        exp = np.repeat(np.asarray(A, dtype=object)[:L], n, axis=0)
         _check_equal(ctx, "rldecode-equals-np.repeat", B, exp, case)
     elif kind == "rlencode":
         A = ctx.reals("a", (c["rows"], c["cols"]), -2, 2)
@@ -455,9 +458,9 @@ def replay_case(case):
             B = mo.rldecode(A, n)
         except Exception as e:  # noqa: BLE001
             return True, f"rldecode({A.tolist()}, {n.tolist()}) raised {type(e).__name__}: {e}"
-        bad = neq(B, np.repeat(A, n, axis=0))
+        bad = neq(B, np.repeat(A[:len(n)], n, axis=0))
         return (True, f"rldecode({A.tolist()}, {n.tolist()}) = {np.asarray(B).tolist()} != np.repeat = "
-                      f"{np.repeat(A, n, axis=0).tolist()}") if bad else (False, "equal")
+                      f"{np.repeat(A[:len(n)], n, axis=0).tolist()}") if bad else (False, "equal")
     if kind == "rlencode":
         A = np.array(case["A"], dtype=float)
         Ac, num = mo.rlencode(A)
